@@ -11,7 +11,7 @@
    Go methods are modelled one by one.
 
    Outside the model (explicit [Unmodelled] results, never silently totalised): time texts
-   that are not in canonical RFC 3339 UTC form, case-insensitive key matching, "version"
+   that are not in canonical RFC 3339 UTC form, non-ASCII case folding of keys, "version"
    given as array/object, Changeset.Change (kept nil), duplicate keys other than last-wins. *)
 From Coq Require Import ZArith List String Ascii Bool DecimalString Decimal.
 From Verif Require Import C05.Json C05.Schema.
@@ -183,6 +183,13 @@ Definition dec_id (j : json) : res Z :=
   | _ => Err
   end.
 
+(* json names of the fields a decoder can address (json:"-" fields excluded) *)
+Fixpoint names (fs : list field) : list string :=
+  match fs with
+  | [] => []
+  | Field _ n _ ft :: r => match ft with TSkip => names r | _ => n :: names r end
+  end.
+
 Fixpoint dec (t : ty) (j : json) {struct t} : res val :=
   match t with
   | TInt lo hi =>
@@ -228,9 +235,9 @@ Fixpoint dec (t : ty) (j : json) {struct t} : res val :=
       | _ => Err
       end
   | TPtr t' => match j with JNull => Ok VNone | _ => rmap VSome (dec t' j) end
-  | TStruct fs =>
+  | TStruct fs0 =>
       match j with
-      | JNull => Ok (zero (TStruct fs))
+      | JNull => Ok (zero (TStruct fs0))
       | JObj kv =>
           rmap VStruct
             ((fix go (fs : list field) : res (list val) :=
@@ -239,13 +246,13 @@ Fixpoint dec (t : ty) (j : json) {struct t} : res val :=
                 | Field _ n _ ft :: fr =>
                     rbind (match ft with
                            | TSkip => Ok VUnit
-                           | _ => match lookup n kv with
+                           | _ => match lookup_f (names fs0) n kv with
                                   | None => Ok (zero ft)
                                   | Some x => dec ft x
                                   end
                            end)
                           (fun v => rbind (go fr) (fun vs => Ok (v :: vs)))
-                end) fs)
+                end) fs0)
       | _ => Err
       end
   end.
